@@ -23,7 +23,8 @@ fn calculate_view_dimensions<T>(start: Coordinate, end: Coordinate, toodee: &imp
         num_cols = 0;
         num_rows = 0;
     }
-    let data_start = start.1 * stride + start.0;
+    // An empty view addresses no data; its nominal start may lie beyond the end of the slice.
+    let data_start = if num_rows == 0 { 0 } else { start.1 * stride + start.0 };
     let data_len = {
         if num_rows == 0 {
             0
